@@ -1,8 +1,8 @@
 //! Bounded witness search for unit C17 (labelled bounded, never counted as proved): every function with 1..=3
 //! blocks whose entry block 0 has no incoming edge, every edge set among the other blocks (self-loops and back
 //! edges included; two out-edges are guarded by the 1-bit scalar `c` / `c == 0`), blocks holding 0..=2 operations
-//! (one block: 0..=3; three blocks: 0..=1, plus a deterministic 1-in-499 sample of the 0..=2 space) from a
-//! 12-letter alphabet over the architecture's stack pointer and one other scalar of the same width.
+//! (one block: 0..=3; three blocks: 0..=1, plus a deterministic 1-in-1999 sample of the 0..=2 space) from a
+//! 15-letter alphabet over the architecture's stack pointer and one other scalar of the same width.
 //! `stack_pointer_offsets` must return Ok, and every `Value(k)` it reports is compared with CONCRETE executions of
 //! the function by an interpreter written here (own operation semantics, own location successor relation): on
 //! every explored execution, at every visited location, k must be the signed w-bit reading of
@@ -27,8 +27,11 @@ enum Op {
     StoreSp,    // [sp] = r
     Nop,
     SpSubHalf,  // sp = sp - 2^(w-1)   (0x80000000 at 32 bits): wrap-around / sign test
+    SpAddBig,   // sp = sp + 0x7fffffff: with a following +8 the offset crosses 2^31 (wraps at 32 bits, must not at 64)
+    SpNeg,      // sp = 8 - sp         (not a translation)
+    SpNegNest,  // sp = 4 + (8 - sp)   (not a translation)
 }
-const OPS: [Op; 12] = [Op::SpSub4, Op::SpAdd8, Op::Sp16Plus, Op::SpSub4Sub4, Op::SpAlign, Op::SpR, Op::SpRPlus4, Op::RSp, Op::LoadSp, Op::StoreSp, Op::Nop, Op::SpSubHalf];
+const OPS: [Op; 15] = [Op::SpSub4, Op::SpAdd8, Op::Sp16Plus, Op::SpSub4Sub4, Op::SpAlign, Op::SpR, Op::SpRPlus4, Op::RSp, Op::LoadSp, Op::StoreSp, Op::Nop, Op::SpSubHalf, Op::SpAddBig, Op::SpNeg, Op::SpNegNest];
 
 #[derive(Clone, Debug, PartialEq, Eq, PartialOrd, Ord)]
 enum Loc { I(usize, usize), E(usize, usize), B(usize) }
@@ -80,6 +83,9 @@ fn step(op: Op, sp: u64, r: u64, w: usize) -> (u64, u64) {
         Op::LoadSp => (load_value(r, w), r),
         Op::StoreSp | Op::Nop => (sp, r),
         Op::SpSubHalf => (sp.wrapping_sub(1u64 << (w - 1)) & m, r),
+        Op::SpAddBig => (sp.wrapping_add(0x7fff_ffff) & m, r),
+        Op::SpNeg => (8u64.wrapping_sub(sp) & m, r),
+        Op::SpNegNest => (4u64.wrapping_add(8u64.wrapping_sub(sp)) & m, r),
     }
 }
 
@@ -102,6 +108,9 @@ fn emit(block: &mut il::Block, op: Op, sp: &il::Scalar, r: &il::Scalar) {
         Op::StoreSp => block.store(spe(), re()),
         Op::Nop => block.nop(),
         Op::SpSubHalf => block.assign(sp.clone(), il::Expression::sub(spe(), k(1u64 << (w - 1))).unwrap()),
+        Op::SpAddBig => block.assign(sp.clone(), il::Expression::add(spe(), k(0x7fff_ffff)).unwrap()),
+        Op::SpNeg => block.assign(sp.clone(), il::Expression::sub(k(8), spe()).unwrap()),
+        Op::SpNegNest => block.assign(sp.clone(), il::Expression::add(k(4), il::Expression::sub(k(8), spe()).unwrap()).unwrap()),
     }
 }
 
@@ -166,7 +175,7 @@ fn main() {
         // possible edges: every (h, t) with t != 0, so that the entry block has no incoming edge
         let cand: Vec<(usize, usize)> = (0..nb).flat_map(|h| (1..nb).map(move |t| (h, t))).collect();
         // which block-content table, and how many combinations of it
-        let passes: Vec<(&Vec<Vec<Op>>, usize)> = match nb { 1 => vec![(&c03, 1)], 2 => vec![(&c02, 1)], _ => vec![(&c01, 1), (&c02, 499)] };
+        let passes: Vec<(&Vec<Vec<Op>>, usize)> = match nb { 1 => vec![(&c03, 1)], 2 => vec![(&c02, 1)], _ => vec![(&c01, 1), (&c02, 1999)] };
         for (table, thin) in passes {
             let ncomb = table.len().pow(nb as u32);
             for comb in 0..ncomb {
